@@ -337,16 +337,32 @@ func multiSplit(value string, seps ...string) []string {
 	return curArray
 }
 
+// recursiveCheck reports whether value can be split into consecutive groups
+// of space separated parts that are each accepted by one of funcs.
 func recursiveCheck(value []string, funcs []func(string) bool) bool {
-	for i := 0; i < len(value); i++ {
-		tempVal := strings.Join(value[:i+1], " ")
-		for _, j := range funcs {
-			if j(tempVal) && (len(value[i+1:]) == 0 || recursiveCheck(value[i+1:], funcs)) {
-				return true
+	if len(value) == 0 {
+		return false
+	}
+	// valid[i] records whether value[i:] can be split that way. Every suffix
+	// is decided exactly once, so a long value cannot cause the exponential
+	// backtracking of a naive recursive search.
+	valid := make([]bool, len(value)+1)
+	valid[len(value)] = true
+	for start := len(value) - 1; start >= 0; start-- {
+		for end := start; end < len(value) && !valid[start]; end++ {
+			if !valid[end+1] {
+				continue
+			}
+			tempVal := strings.Join(value[start:end+1], " ")
+			for _, j := range funcs {
+				if j(tempVal) {
+					valid[start] = true
+					break
+				}
 			}
 		}
 	}
-	return false
+	return valid[0]
 }
 
 func in(value []string, arr []string) bool {
